@@ -26,10 +26,10 @@ def dec : PC → Option (Nat × Env)
   | .aLock d => some (0, Env.empty.set 0 (.int d))
   | .aAdd d => some (1, Env.empty.set 0 (.int d))
   | .aSwap v => some (3, Env.empty.set 1 (.int v))
-  | .aCloseOld v ch => some (5, (Env.empty.set 1 (.int v)).set 2 (.chan ch))
+  | .aCloseOld v ch => some (7, (Env.empty.set 1 (.int v)).set 2 (.chan ch))
   | .aCAS v => some (9, Env.empty.set 1 (.int v))
   | .aCloseNew v ch => some (12, (Env.empty.set 1 (.int v)).set 3 (.chan ch))
-  | .aUnlock v => some (6, Env.empty.set 1 (.int v))
+  | .aUnlock v => some (5, Env.empty.set 1 (.int v))
   | .wCount => some (13, Env.empty)
   | .wChan c => some (14, Env.empty.set 0 (.int c))
   | .cLoad => some (17, Env.empty)
@@ -39,14 +39,14 @@ def enc (nd : Nat) (env : Env) : Option PC :=
   | 0 => (env.int 0).map .aLock
   | 1 => (env.int 0).map .aAdd
   | 3 => (env.int 1).map .aSwap
-  | 5 => match env.int 1, env.chan 2 with
+  | 7 => match env.int 1, env.chan 2 with
     | some v, some ch => some (.aCloseOld v ch)
     | _, _ => none
   | 9 => (env.int 1).map .aCAS
   | 12 => match env.int 1, env.chan 3 with
     | some v, some ch => some (.aCloseNew v ch)
     | _, _ => none
-  | 6 => (env.int 1).map .aUnlock
+  | 5 => (env.int 1).map .aUnlock
   | 13 => some .wCount
   | 14 => (env.int 0).map .wChan
   | 17 => some .cLoad
